@@ -433,8 +433,8 @@ ErrStat(sol, fn, p, ret, e) ==
 OracleAccept(p, sol, par, vec, fn, sig, args, cb, ret) ==
   LET known == IsKnown(sol, fn)
       e == Expected(sol, par, vec, fn, sig, args, cb, known)
-  IN  \/ Len(e) = 0
-      \/ Len(e) = 1 /\ ~NIsFinite(NFromStr(ret))
-      \/ Len(e) > 1 /\ NClose(NFromStr(ret), e, KBits, p) /\ ErrStat(sol, fn, p, ret, e)
-      \/ known /\ ~HasVariant(sol, fn)
+  IN  IF known /\ ~HasVariant(sol, fn) THEN TRUE
+      ELSE IF Len(e) = 0 THEN TRUE
+      ELSE IF Len(e) = 1 THEN ~NIsFinite(NFromStr(ret))
+      ELSE NClose(NFromStr(ret), e, KBits, p) /\ ErrStat(sol, fn, p, ret, e)
 =============================================================================
